@@ -46,6 +46,23 @@ impl NodeProcessor for Processor {
             return;
         }
 
+        {
+            // removing a `nil` value moves its variable to the end of the list: when a name is
+            // declared twice that changes which declaration is visible afterwards
+            let names: Vec<&str> = assignment
+                .iter_variables()
+                .map(|variable| variable.get_name().as_str())
+                .collect();
+            let has_repeated_name = names
+                .iter()
+                .enumerate()
+                .any(|(index, name)| names[..index].contains(name));
+
+            if has_repeated_name {
+                return;
+            }
+        }
+
         if assignment.variables_len() > assignment.values_len()
             && assignment
                 .last_value()
